@@ -340,8 +340,9 @@ class _Parser(object):
                 return helpers.get_value_by_dot(variables, expression[2:], can_generate_array=True)
             return helpers.get_value_by_dot(self._doc_dict, expression[1:], can_generate_array=True)
         if isinstance(expression, list):
-            # An array constant of the pipeline: each document gets its own copy.
-            return copy.deepcopy(expression)
+            # An array literal: each item is an expression, a missing value gives a null item.
+            items = [self._parse_or_nothing(item) for item in expression]
+            return [None if item is NOTHING else item for item in items]
         return expression
 
     def _handle_boolean_operator(self, operator, values):
